@@ -235,3 +235,185 @@ theorem li_recv (s : State) (p : Peer) (r : ReqMsg) (seen : List Id) :
   rw [li_sendMsg _ _ (by intros; simp) (by intros; simp)]; rfl
 
 end GS.RespLife
+
+namespace GS.RespLife
+-- ------------------------------------------------------------------ worker segments
+/-- worker `w` gets kind `k` -/
+def Li.setKind (x : Li) (w : Nat) (k : WKind) : Li :=
+  { x with wk := x.wk.mapIdx fun i t => if i == w then (t.1, t.2.1, k) else t }
+
+/-- a FinishTask of worker `w` is appended to the mailbox -/
+def Li.addFin (x : Li) (w : Nat) : Li := { x with fins := x.fins ++ [w] }
+
+theorem wcore_setWorker_kind (s : State) (w : Nat) (f : Worker → Worker) (k : WKind)
+    (h : ∀ x, ((f x).peer, (f x).id, wkind (f x).phase) = (x.peer, x.id, k)) :
+    wcore (setWorker s w f) = (wcore s).mapIdx fun i t => if i == w then (t.1, t.2.1, k) else t := by
+  apply List.ext_getElem?
+  intro i
+  simp only [wcore, setWorker, List.getElem?_map, List.getElem?_mapIdx]
+  cases s.workers[i]? with
+  | none => rfl
+  | some x =>
+    simp only [Option.map_some]
+    split
+    · rw [h]
+    · rfl
+
+theorem li_setPhase (s : State) (w : Nat) (ph : WPhase) : li (setPhase s w ph) = (li s).setKind w (wkind ph) := by
+  simp only [li, Li.setKind, setPhase]
+  rw [wcore_setWorker_kind s w _ (wkind ph) (fun _ => rfl)]
+  rfl
+
+theorem li_sendMsg_fin (s : State) (w : Nat) (e : Option WErr) : li (sendMsg s (.finishTask w e)) = (li s).addFin w := by
+  simp only [li, Li.addFin, sendMsg]
+  congr 1
+  · exact starts_append _ _ (by intros; simp)
+  · simp [fins, List.filterMap_append]
+
+/-- what a worker segment does to the lifecycle projection: worker `w` ends in kind mid / fin, or it has
+    sent FinishTask and waits -/
+def WL (x x' : Li) (w : Nat) : Prop :=
+  x' = x.setKind w .mid ∨ x' = x.setKind w .fin ∨ x' = (x.addFin w).setKind w .waitFinish
+
+theorem wl_of_li_eq {s s1 s' : State} {w : Nat} (h : li s1 = li s) (h' : WL (li s1) (li s') w) : WL (li s) (li s') w := by
+  rw [← h]; exact h'
+
+theorem wl_modAux {s : State} {id : Id} {f : Aux → Aux} {x : Li} {w : Nat}
+    (h' : WL (li (modAux s id f)) x w) (h : ∀ a, (f a).task = a.task) : WL (li s) x w := by
+  rw [li_modAux s id f h] at h'; exact h'
+
+theorem wl_sendFinishNow (s : State) (w : Nat) (err : Option WErr) : WL (li s) (li (sendFinishNow s w err)) w := by
+  right; right
+  unfold sendFinishNow
+  rw [li_setPhase, li_sendMsg_fin]; rfl
+
+theorem wl_sendFinish (s : State) (w : Nat) (err : Option WErr) : WL (li s) (li (sendFinish s w err)) w := by
+  unfold sendFinish
+  split
+  · right; left
+    simp only [li, Li.setKind]
+    rw [wcore_setWorker_kind s w _ .fin (fun _ => rfl)]
+    rfl
+  · exact wl_sendFinishNow s w err
+
+theorem wl_setPhase_mid (s : State) (w : Nat) (ph : WPhase) (h : wkind ph = .mid) : WL (li s) (li (setPhase s w ph)) w := by
+  left; rw [li_setPhase, h]
+
+theorem wl_setPhase_fin (s : State) (w : Nat) (ph : WPhase) (h : wkind ph = .fin) : WL (li s) (li (setPhase s w ph)) w := by
+  right; left; rw [li_setPhase, h]
+
+theorem wl_executeQuery (s : State) (w : Nat) (wk : Worker) (err : Option WErr) :
+    WL (li s) (li (executeQuery s w wk err)) w := by
+  unfold executeQuery
+  split
+  · exact wl_sendFinish _ _ _
+  · exact wl_sendFinish _ _ _
+  · exact wl_sendFinish _ _ _
+  · simp only
+    generalize h : execTx s (.worker w) wk.peer wk.id _ = pr
+    obtain ⟨s1, ok⟩ := pr
+    have h1 := li_execTx_eq h
+    simp only
+    split
+    · exact wl_of_li_eq h1 (wl_sendFinish _ _ _)
+    · exact wl_of_li_eq h1 (wl_setPhase_fin _ _ _ rfl)
+
+theorem wl_loopTop (s : State) (w : Nat) (wk : Worker) : WL (li s) (li (loopTop s w wk)) w := by
+  unfold loopTop
+  split
+  · exact wl_sendFinish _ _ _
+  · split
+    · exact wl_executeQuery _ _ _ _
+    · exact wl_setPhase_mid _ _ _ rfl
+
+theorem wl_afterBlock (s : State) (w : Nat) (wk : Worker) (err : Option WErr) :
+    WL (li s) (li (afterBlock s w wk err)) w := by
+  unfold afterBlock
+  split
+  · exact wl_executeQuery _ _ _ _
+  · exact wl_loopTop _ _ _
+
+theorem wl_runTx (s : State) (w : Nat) (wk : Worker) (ops : List TxOp) (k : AfterTx) :
+    WL (li s) (li (runTx s w wk ops k)) w := by
+  unfold runTx
+  generalize h : execTx s (.worker w) wk.peer wk.id ops = pr
+  obtain ⟨s1, ok⟩ := pr
+  have h1 := li_execTx_eq h
+  simp only
+  split
+  · split
+    · exact wl_of_li_eq h1 (wl_afterBlock _ _ _ _)
+    · exact wl_of_li_eq h1 (wl_sendFinish _ _ _)
+  · cases k with
+    | afterBlock e p => exact wl_of_li_eq h1 (wl_setPhase_mid _ _ _ rfl)
+    | afterFinal e => exact wl_of_li_eq h1 (wl_setPhase_fin _ _ _ rfl)
+
+theorem wl_blockPart (s : State) (w : Nat) (wk : Worker) (ops : List TxOp) (cfu : Option WErr) (present : Bool) :
+    WL (li s) (li (blockPart s w wk ops cfu present)) w := by
+  unfold blockPart
+  split
+  · exact wl_sendFinish _ _ _
+  · simp only
+    split
+    · exact wl_modAux (wl_runTx _ _ _ _ _) (fun _ => rfl)
+    · split
+      · exact wl_modAux (wl_runTx _ _ _ _ _) (fun _ => rfl)
+      · exact wl_modAux (wl_runTx _ _ _ _ _) (fun _ => rfl)
+      · exact wl_modAux (wl_runTx _ _ _ _ _) (fun _ => rfl)
+      · exact wl_modAux (wl_runTx _ _ _ _ _) (fun _ => rfl)
+      · exact wl_modAux (wl_setPhase_mid _ _ _ rfl) (fun _ => rfl)
+
+theorem wl_checkForUpdates (s : State) (w : Nat) (wk : Worker) (ops : List TxOp) (present : Bool) (pick : Nat) :
+    WL (li s) (li (checkForUpdates s w wk ops present pick)) w := by
+  unfold checkForUpdates
+  split
+  · exact wl_sendFinish _ _ _
+  · simp only
+    split
+    · exact wl_blockPart _ _ _ _ _ _
+    · exact wl_modAux (wl_blockPart _ _ _ _ _ _) (fun _ => rfl)
+    · exact wl_modAux (wl_runTx _ _ _ _ _) (fun _ => rfl)
+    · rename_i r _ _ _ _ _ _
+      refine wl_modAux (id := r.id) (f := fun a => { a with sigUpdate := false }) ?_ (fun _ => rfl)
+      exact wl_of_li_eq (li_sendMsg _ (Msg.getUpdates w) (by intros; simp) (by intros; simp)) (wl_setPhase_mid _ _ _ rfl)
+
+theorem wl_applyUpdates (s : State) (w : Nat) (wk : Worker) (ups : List UP) (ops : List TxOp) (present : Bool)
+    (pick : Nat) : WL (li s) (li (applyUpdates s w wk ups ops present pick)) w := by
+  induction ups generalizing ops with
+  | nil => simp only [applyUpdates]; exact wl_checkForUpdates _ _ _ _ _ _
+  | cons u us ih =>
+    unfold applyUpdates
+    simp only
+    split
+    · exact wl_runTx _ _ _ _ _
+    · exact ih _
+
+/-- a worker segment: only the kind of worker `w` and (possibly) one appended FinishTask change, and
+    the segment starts from kind mid or fin -/
+theorem wl_wstep {s s' : State} {w pick : Nat} (h : wstep s w pick = some s') :
+    WL (li s) (li s') w ∧ ∃ wk, workerOf s w = some wk ∧ (wkind wk.phase = .mid ∨ wkind wk.phase = .fin) := by
+  unfold wstep at h
+  split at h
+  · cases h
+  · rename_i wk hw
+    split at h
+    · rename_i hp; cases h; exact ⟨wl_loopTop _ _ _, wk, hw, Or.inl (by rw [hp]; rfl)⟩
+    · rename_i hp
+      split at h
+      · cases h; exact ⟨wl_sendFinish _ _ _, wk, hw, Or.inl (by rw [hp]; rfl)⟩
+      · cases h
+        exact ⟨wl_modAux (wl_checkForUpdates _ _ _ _ _ _) (fun _ => rfl), wk, hw, Or.inl (by rw [hp]; rfl)⟩
+    · rename_i hp; cases h; exact ⟨wl_applyUpdates _ _ _ _ _ _ _, wk, hw, Or.inl (by rw [hp]; rfl)⟩
+    · rename_i hp; cases h; exact ⟨wl_runTx _ _ _ _ _, wk, hw, Or.inl (by rw [hp]; rfl)⟩
+    · rename_i hp; cases h; exact ⟨wl_sendFinishNow _ _ _, wk, hw, Or.inr (by rw [hp]; rfl)⟩
+    · rename_i hp
+      simp only at h
+      split at h
+      · rename_i e pr
+        cases h
+        exact ⟨wl_of_li_eq (li_buildNow _ _ _ _) (wl_afterBlock _ _ _ _), wk, hw, Or.inl (by rw [hp]; rfl)⟩
+      · cases h
+        exact ⟨wl_of_li_eq (li_buildNow _ _ _ _) (wl_sendFinish _ _ _), wk, hw, Or.inr (by rw [hp]; rfl)⟩
+    · cases h
+
+end GS.RespLife
